@@ -1261,3 +1261,185 @@ pub fn run(ctx: &mut Ctx) {
         check_program(ctx, case, &lib, &prog, mutation);
     }
 }
+
+// ---------------------------------------------------------------------------------------------
+// C03's statement-order workload (lives here because it reuses this module's programs)
+
+fn idents_of(e: &Expr, out: &mut Vec<String>) {
+    match e {
+        Expr::Ident(i) => out.push(i.clone()),
+        Expr::Access(e, _) | Expr::NamedAccess(e, _) | Expr::Nested(e) => idents_of(e, out),
+        Expr::New(_, args) => {
+            for a in args {
+                match a {
+                    Arg::Inferred(n) | Arg::Spread(n) => out.push(n.clone()),
+                    Arg::Named(_, e) => idents_of(e, out),
+                    Arg::Fill => {}
+                }
+            }
+        }
+    }
+}
+
+/// The interface of an encoded composition: import name -> (sort, what its type exports),
+/// export name -> sort; both sorted by name.
+fn interface_of(bytes: &[u8]) -> Option<(Vec<String>, Vec<String>)> {
+    let d = decode::decode(bytes).ok()?;
+    let mut imports: Vec<String> = d.imports.iter().map(|i| {
+        let mut t = format!("{:?}", i.ty);
+        if let decode::TypeEntry::Instance { exports } = &i.ty {
+            let mut e: Vec<String> = exports.iter().map(|(n, s)| format!("{n}:{}", s.name())).collect();
+            e.sort();
+            t = format!("instance{e:?}");
+        }
+        format!("{} {} {t}", i.name, i.sort.name())
+    }).collect();
+    let mut exports: Vec<String> = d.exports.iter().map(|(n, s, _)| format!("{n} {}", s.name())).collect();
+    imports.sort();
+    exports.sort();
+    Some((imports, exports))
+}
+
+/// The recorded finding shared with C04: an interface imported by path under two names.
+fn two_names_zone(prog: &[Stmt], comp: &Composition) -> bool {
+    let paths: Vec<(usize, &String)> = prog.iter().enumerate().filter_map(|(i, s)| match s {
+        Stmt::Import { ty: ImpTy::Path(e), .. } => Some((i, &e.name)),
+        _ => None,
+    }).collect();
+    prog.iter().enumerate().any(|(i, s)| match s {
+        Stmt::Import { as_name: Some(_), ty: ImpTy::Path(e), .. } => comp.implicit_imports.contains(&e.name) || paths.iter().any(|(j, p)| *j != i && **p == e.name),
+        _ => false,
+    })
+}
+
+fn compare_orders(ctx: &mut Ctx, case: u64, lib: &Lib, prog: &[Stmt], permuted: &[Stmt]) {
+    let lib_ref = lib;
+    let lib = lib_ref;
+        let zone = match evaluate(lib, permuted).0 {
+            Ok(comp) => two_names_zone(permuted, &comp),
+            Err(_) => {
+                ctx.count("order:permutation-ill-formed-per-reference");
+                return;
+            }
+        };
+        let (t1, t2) = (print_program(lib, prog), print_program(lib, permuted));
+        let input = json!({"text": t1, "permuted": t2});
+        ctx.eval();
+        let (Ok(a), Ok(b)) = (catch(|| wac_outcome(lib, &t1)), catch(|| wac_outcome(lib, &t2))) else {
+            ctx.count("pipeline-panic-skipped");
+            return;
+        };
+        if a.0 != "ok" || b.0 != "ok" {
+            if (a.0 == "ok") != (b.0 == "ok") {
+                ctx.violation(case, "C03:outcome-depends-on-statement-order", format!("original order: {} {}; permuted order: {} {}", a.0, a.1, b.0, b.1), input);
+            } else {
+                ctx.count("order:both-orders-rejected");
+            }
+            return;
+        }
+        let (Some(ia), Some(ib)) = (interface_of(a.2.as_ref().unwrap()), interface_of(b.2.as_ref().unwrap())) else {
+            ctx.count("harness:output-undecodable");
+            return;
+        };
+        if ia != ib {
+            ctx.violation(case, if zone { "C03:interface-depends-on-statement-order:interface-imported-under-two-names" } else { "C03:interface-depends-on-statement-order" }, format!("original order: imports {:?} exports {:?}\npermuted order: imports {:?} exports {:?}", ia.0, ia.1, ib.0, ib.1), input);
+        } else {
+            ctx.count("order:interfaces-equal");
+            if ia.0.len() >= 2 {
+                ctx.count("order:interfaces-equal-with-several-imports");
+            }
+        }
+}
+
+/// C03: "the interface does not change when independent nodes are created in a different order".
+/// A well-formed program is re-ordered by a random dependency-preserving permutation of its
+/// statements (export statements keep their relative order, since a spread export depends on what
+/// was exported before it); both orders must resolve, encode and have the same interface.
+pub fn statement_order_workload(ctx: &mut Ctx) {
+    let lib = match build_lib() {
+        Ok(l) => l,
+        Err(e) => {
+            ctx.note("harness_error", json!(e));
+            return;
+        }
+    };
+    // directed witness of the recorded finding: one interface imported under two names
+    let wcase = crate::witness::WITNESS_BASE + 7;
+    if ctx.mine(wcase) {
+        ctx.begin(wcase);
+        let a = lib.pkgs[0].exports.iter().find(|e| e.name == "ns:lib/a").unwrap().clone();
+        let p1 = vec![
+            Stmt::Import { id: "x".into(), as_name: None, ty: ImpTy::Path(a.clone()) },
+            Stmt::Import { id: "y".into(), as_name: Some("custom".into()), ty: ImpTy::Path(a) },
+        ];
+        let p2 = vec![p1[1].clone(), p1[0].clone()];
+        compare_orders(ctx, wcase, &lib, &p1, &p2);
+    }
+    let base = 1u64 << 32;
+    let total = ctx.n(20_000, 4_000_000);
+    let ks: Vec<u64> = match ctx.only_case {
+        Some(c) if c >= base => vec![c - base],
+        Some(_) => vec![],
+        None => ctx.cases(total),
+    };
+    for k in ks {
+        let case = base + k;
+        if ctx.out_of_budget() {
+            ctx.count("budget-stop");
+            break;
+        }
+        ctx.begin(case);
+        let mut rng = ctx.rng(case);
+        let n = rng.range(3, 9);
+        let mut g = Gen { lib: &lib, rng: &mut rng, prog: vec![], k: 0, allow_mix: false };
+        let mut tries = 0;
+        while g.prog.len() < n && tries < 40 {
+            tries += 1;
+            let st = g.statement();
+            g.prog.push(st);
+            if evaluate(&lib, &g.prog).0.is_err() {
+                g.prog.pop();
+            }
+        }
+        let prog = g.prog;
+        if prog.len() < 3 {
+            continue;
+        }
+        // dependency-preserving random permutation
+        let defs: Vec<Option<&String>> = prog.iter().map(|s| match s {
+            Stmt::Import { id, .. } | Stmt::Let { id, .. } => Some(id),
+            Stmt::Export { .. } => None,
+        }).collect();
+        let uses: Vec<Vec<String>> = prog.iter().map(|s| {
+            let mut v = Vec::new();
+            match s {
+                Stmt::Let { expr, .. } | Stmt::Export { expr, .. } => idents_of(expr, &mut v),
+                Stmt::Import { .. } => {}
+            }
+            v
+        }).collect();
+        let mut placed: Vec<usize> = Vec::new();
+        let mut remaining: Vec<usize> = (0..prog.len()).collect();
+        while !remaining.is_empty() {
+            let ready: Vec<usize> = remaining.iter().copied().filter(|i| {
+                let deps_ok = uses[*i].iter().all(|u| placed.iter().any(|p| defs[*p] == Some(u)));
+                // exports keep their relative order
+                let export_ok = !matches!(prog[*i], Stmt::Export { .. }) || !remaining.iter().any(|j| *j < *i && matches!(prog[*j], Stmt::Export { .. }));
+                deps_ok && export_ok
+            }).collect();
+            if ready.is_empty() {
+                break;
+            }
+            let pick = *rng.pick(&ready);
+            placed.push(pick);
+            remaining.retain(|i| *i != pick);
+        }
+        if !remaining.is_empty() || placed.iter().enumerate().all(|(i, p)| i == *p) {
+            ctx.count("order:no-other-order");
+            continue;
+        }
+        let permuted: Vec<Stmt> = placed.iter().map(|i| prog[*i].clone()).collect();
+        compare_orders(ctx, case, &lib, &prog, &permuted);
+        ctx.shape_str(&format!("order|{:?}", placed));
+    }
+}
